@@ -83,7 +83,13 @@ class ComputeTypeVisitor(Visitor.DefaultVisitor):
 
     def v_IfStatement(self, stmt, ctx):
         ctx.append(types.Scope(ctx[-1]))
-        stmt.AcceptVisitor(self, ctx)
+        self.v_Visit(stmt.GetCondition(), ctx)
+        # The two paths are disjoint scopes, whether they are braced or not
+        for path in (stmt.GetTruePath(), stmt.GetElsePath()):
+            if path is not None:
+                ctx.append(types.Scope(ctx[-1]))
+                self.v_Visit(path, ctx)
+                ctx.pop()
         ctx.pop()
 
     def _GetClassScopeForMemberAccess(self, expr, scope):
